@@ -89,6 +89,10 @@ def seed_kwargs(form, seed):
         return {"rng": np.random.SeedSequence(seed)}
     if form == "rng_gen":
         return {"rng": np.random.default_rng(seed)}
+    if form == "seed_str":
+        # a seed numpy does not accept (Model.__init__'s TypeError branch: the numpy generator is seeded from model.random);
+        # random.seed(str) hashes the text with sha512, so the stream must not depend on PYTHONHASHSEED
+        return {"seed": f"run-{seed}"}
     raise ValueError(form)
 
 
@@ -361,13 +365,26 @@ def run_spec(spec):
     reseed_ok = ([model.random.random() for _ in range(4)] == [ref.random.random() for _ in range(4)]
                  and model.rng.random(4).tolist() == ref.rng.random(4).tolist())
     # the same for a plain Model under every seed / rng form
-    for f in ("seed", "rng_int", "rng_seq", "rng_gen"):
+    for f in ("seed", "rng_int", "rng_seq", "rng_gen", "seed_str"):
         m1 = Model(**seed_kwargs(f, spec["seed"]))
         first = ([m1.random.random() for _ in range(3)], m1.rng.random(3).tolist())
         m1.reset_randomizer()
         m1.reset_rng()
         again = ([m1.random.random() for _ in range(3)], m1.rng.random(3).tolist())
         if first != again:
+            reseed_ok = False
+        # re-seeding with a NEW seed gives the streams of a brand-new model built with that seed, and that seed is what a
+        # later argument-less reset replays
+        s2 = spec["seed"] + 17
+        m1.reset_randomizer(seed=s2)
+        m1.reset_rng(rng=s2)
+        fresh = Model(seed=s2)
+        new1 = ([m1.random.random() for _ in range(3)], m1.rng.random(3).tolist())
+        if new1 != ([fresh.random.random() for _ in range(3)], fresh.rng.random(3).tolist()):
+            reseed_ok = False
+        m1.reset_randomizer()
+        m1.reset_rng()
+        if new1 != ([m1.random.random() for _ in range(3)], m1.rng.random(3).tolist()):
             reseed_ok = False
     # the same seed OBJECT handed to two models gives the same trajectory (SeedSequence is a value, not a stream)
     same_obj_ok = True
